@@ -12,6 +12,7 @@ import PyamgV.Proofs.ExtC14XNoBlock
 import PyamgV.Proofs.ExtC14XSqrt
 import PyamgV.Proofs.ExtC14YEvol
 import PyamgV.Proofs.ExtC14YDefined
+import PyamgV.Proofs.ExtPy3AggstrStrength
 
 /-! # C14 — strength-of-connection matrices obey the common contract and their rules
 
@@ -409,5 +410,25 @@ example : (energyFullC (sqrtApprox 16) (1/2) (-1/100) (1/1024) (1/4) 1
 example : energyFullBsr (sqrtApprox 16) (1/2) (-1/100) (1/1024) (1/4) 1
       ⟨4, 4, 2, 2, #[0, 2, 4], #[0, 1, 0, 1], #[4, -1, -1, 4, -2, 0, 0, -1, -2, 0, 0, -1, 8, 2, 2, 8]⟩
     = [[(0, 1), (1, 1)], [(0, 1), (1, 1)]] := by decide +kernel
+
+/-! ### extension E59: the Python part of `classical_strength_of_connection` as GENERATED from the working tree
+(harness/py2lean3_aggstr.py, `Generated/PyLogic3_aggstr.lean`), numerical work abstracted as events; finite grid -/
+/-- the generated function performs exactly the events of the specification `cExpected` (CSR vs BSR branch, block flag,
+norm selection, clean-up, kernel call, assembly of S, amalgamation) on `cGrid` -/
+restate py_strength_refines_spec := PyamgV.ExtPy3AggstrP.strength_refines_spec
+/-- the 1e-16 clean-up is ONE `setitem` event, in the BSR / block branch only, on a fresh array produced by this run; the
+CSR path performs no `setitem` at all -/
+restate py_strength_cleanup_bsr_only := PyamgV.ExtPy3AggstrP.strength_cleanup_bsr_only
+/-- no event writes the caller's matrix or its arrays -/
+restate py_strength_no_argument_mutation := PyamgV.ExtPy3AggstrP.strength_no_argument_mutation
+/-- an unknown norm raises `ValueError` on both paths -/
+restate py_strength_unknown_norm := PyamgV.ExtPy3AggstrP.strength_unknown_norm
+/-- `theta` outside [0, 1] raises `ValueError` before any array is touched -/
+restate py_strength_theta_range := PyamgV.ExtPy3AggstrP.strength_theta_range
+
+/-! non-vacuity (E59): the grid has 48 scenarios; the BSR / block / abs run writes the fresh array `#4` -/
+example : ExtPy3AggstrP.cGrid.length = 48 := by decide +kernel
+example : ExtPy3AggstrP.setitemTargets (ExtPy3AggstrP.cRun ⟨"bsr", 2, true, .abs⟩).2 = ["#4"] ∧
+    ExtPy3AggstrP.setitemTargets (ExtPy3AggstrP.cRun ⟨"csr", 1, true, .abs⟩).2 = [] := by decide +kernel
 
 end PyamgV.Props.C14
